@@ -80,6 +80,7 @@ type attempt struct {
 	deleted   []IdRef
 	commits   []string
 	pres      []string // tags of the pre-commit actions this attempt registered
+	preRegRan int      // executions, during this attempt, of the action registered on the context BEFORE the call
 	mustFail  string   // why the transaction is bound to fail ("" = it should commit)
 	rejectWhy string
 	firedOp   string // fault fired during the current op
@@ -124,6 +125,7 @@ type Run struct {
 	ledger    *Ledger
 	viols     []Violation
 	ctxTx     map[boltz.MutateContext]*txRun
+	taskCtx   map[string]boltz.MutateContext // the context a task may reuse for its next call (only after a plain transaction)
 	everDel   map[IdRef]bool
 	pendTrace []IdRef
 	forceChk  bool
@@ -296,6 +298,7 @@ func (r *Run) run() {
 	r.path = r.dir + "/db"
 	uuid.SetRand(&seededReader{r: rand.New(rand.NewPCG(r.plan.Seed, 0x5851f42d4c957f2d))})
 	r.committed = NewModel()
+	r.committed.PxMode = pxMode(r.plan.Schema)
 	r.ledger = NewLedger()
 	r.ctxTx = map[boltz.MutateContext]*txRun{}
 	r.everDel = map[IdRef]bool{}
@@ -322,6 +325,7 @@ func (r *Run) run() {
 		registerListeners(r, StTickets, boltz.EntityStore[*Ticket](r.st.Tickets))
 		registerListeners(r, StReviews, boltz.EntityStore[*Review](r.st.Reviews))
 		registerListeners(r, StFolders, boltz.EntityStore[*Folder](r.st.Folders))
+		registerListeners(r, StDesks, boltz.EntityStore[*Desk](r.st.Desks))
 		registerListeners(r, StGroups, boltz.EntityStore[*Group](r.st.Groups))
 		registerListeners(r, StMemos, boltz.EntityStore[*Memo](r.st.Memos))
 	}
@@ -336,18 +340,46 @@ func (r *Run) run() {
 			_ = r.db.Close()
 		}
 	}()
-	err := r.db.Update(nil, func(ctx boltz.MutateContext) error {
-		// (required set-up: a set index refuses to work on a database whose index buckets were never initialised)
-		holder := boltz.ErrBucket(nil)
-		r.st.InitIndexes(ctx.Tx(), holder)
-		return holder.GetError()
-	})
+	var err error
+	var setupPanic any
+	func() {
+		defer func() {
+			if p := recover(); p != nil {
+				if !libraryPanic() {
+					panic(p)
+				}
+				setupPanic = p
+			}
+		}()
+		err = r.db.Update(nil, func(ctx boltz.MutateContext) error {
+			// (required set-up: a set index refuses to work on a database whose index buckets were never initialised)
+			holder := boltz.ErrBucket(nil)
+			r.st.InitIndexes(ctx.Tx(), holder)
+			return holder.GetError()
+		})
+	}()
+	if setupPanic != nil {
+		// the very first Db.Update of a fresh database panicked inside the library: a verdict for C07 (a failure that
+		// did not reach the caller as an error); for every other property's check there is nothing left to explore
+		r.viols = append(r.viols, Violation{Props: []string{"C07"}, Oracle: "tx", Sig: "panic-in-transaction:setup",
+			Detail: fmt.Sprintf("Db.Update(nil, InitializeIndexes) on a fresh database panicked inside the library: %v", setupPanic)})
+		res.Violations = r.viols
+		if r.plan.Prop != "C07" {
+			res.HarnessErr = fmt.Sprintf("set-up transaction panicked inside the library: %v", setupPanic)
+		}
+		return
+	}
 	if err != nil {
 		res.HarnessErr = "init indexes: " + err.Error()
 		return
 	}
 	_ = r.db.View(func(tx *bbolt.Tx) error {
 		r.lastDump = TakeDump(tx)
+		// somebody in the process has used a filter that negates a constant (whatever parsing does with it must
+		// stay inside that query)
+		if ids, _, err := r.st.People.QueryIds(tx, "not true"); err == nil && len(ids) != 0 {
+			r.viols = append(r.viols, Violation{Props: []string{"C15", "C18"}, Oracle: "views", Sig: "query-not-true", Detail: fmt.Sprintf("people.QueryIds(not true) on an empty store returned %q", ids)})
+		}
 		return nil
 	})
 	if !r.profileSetup() {
@@ -516,6 +548,10 @@ func (r *Run) onRw(ev string) {
 				}
 				for _, tag := range a.pres {
 					r.ledger.expPre[tag]++
+				}
+				if a.tr.plan.PreReg != "" && a.tr.plan.Ctx != "nil" && a.preRegRan != 1 {
+					r.viols = append(r.viols, Violation{Props: []string{"C07"}, Oracle: "tx", Sig: "pre-commit-action-count",
+						Detail: fmt.Sprintf("%s committed, but the pre-commit action registered on its context before the call ran %d time(s) during the committed execution", a.tr.id, a.preRegRan)})
 				}
 				if a.tr.plan.Mode == "update" {
 					r.ledger.expTxDone[a.tr.id]++
@@ -771,10 +807,10 @@ func propsForReject(why string) []string {
 		case w == "":
 		case strings.HasPrefix(w, "name-"), strings.HasPrefix(w, "nick-"), strings.HasPrefix(w, "role-"):
 			set["C03"] = true
-		case strings.HasPrefix(w, "badgeNo-"), strings.HasPrefix(w, "memo-"):
+		case strings.HasPrefix(w, "badgeNo-"), strings.HasPrefix(w, "memo-"): // (memo-dup, memo-empty)
 			set["C03"] = true
 			set["C15"] = true
-		case strings.HasPrefix(w, "dept-"), strings.HasPrefix(w, "mentor-"), strings.HasPrefix(w, "owner-"), strings.HasPrefix(w, "ref-"), strings.HasPrefix(w, "ticket-"), strings.HasPrefix(w, "review-"):
+		case strings.HasPrefix(w, "dept-"), strings.HasPrefix(w, "mentor-"), strings.HasPrefix(w, "owner-"), strings.HasPrefix(w, "ref-"), strings.HasPrefix(w, "ticket-"), strings.HasPrefix(w, "review-"), strings.HasPrefix(w, "desk-"):
 			set["C04"] = true
 		case strings.HasPrefix(w, "group-"), strings.HasPrefix(w, "link-"), strings.HasPrefix(w, "rc-"):
 			set["C05"] = true
@@ -841,6 +877,36 @@ func (r *Run) execWriteTx(t *Task, idx int, tx *TxPlan) {
 	goCtx, cancel := context.WithCancel(context.Background())
 	defer cancel()
 	ctx := boltz.NewMutateContext(goCtx)
+	plainTx := tx.PreReg == "" // no actions, no derived contexts: the context object comes out as it went in
+	for _, op := range tx.Ops {
+		if op.K == "commitAction" || op.K == "preCommit" || op.K == "updateCtx" {
+			plainTx = false
+		}
+	}
+	if tx.Ctx == "reuse" {
+		// a client that keeps one MutateContext for its consecutive calls (a retry loop after a failure, say)
+		r.mu.Lock()
+		if prev := r.taskCtx[t.Name]; prev != nil && plainTx {
+			ctx = prev
+			if r.res.Probes == nil {
+				r.res.Probes = map[string]int{}
+			}
+			r.res.Probes["context_reused"]++
+		}
+		r.mu.Unlock()
+	}
+	defer func() {
+		r.mu.Lock()
+		if r.taskCtx == nil {
+			r.taskCtx = map[string]boltz.MutateContext{}
+		}
+		if plainTx && (tx.Ctx == "" || tx.Ctx == "reuse") {
+			r.taskCtx[t.Name] = ctx
+		} else {
+			delete(r.taskCtx, t.Name)
+		}
+		r.mu.Unlock()
+	}()
 	callCtx := ctx
 	switch tx.Ctx {
 	case "nil":
@@ -859,6 +925,25 @@ func (r *Run) execWriteTx(t *Task, idx int, tx *TxPlan) {
 		r.res.FaultsConf[f.Kind]++
 	}
 	r.mu.Unlock()
+	if tx.PreReg != "" && callCtx != nil {
+		callCtx.AddPreCommitAction(func(boltz.MutateContext) error {
+			r.mu.Lock()
+			cur := tr.attempts[len(tr.attempts)-1]
+			cur.preRegRan++
+			if tx.PreReg == "fail" {
+				cur.mustFail = "F4"
+			}
+			r.mu.Unlock()
+			if tx.PreReg == "fail" {
+				r.bump(&r.res.FaultsHit, "F4")
+				return errInjected
+			}
+			return nil
+		})
+		if tx.PreReg == "fail" {
+			r.bump(&r.res.FaultsConf, "F4")
+		}
+	}
 	body := func(ctx boltz.MutateContext) error {
 		err := r.body(tr, ctx)
 		if tx.Ctx == "cancel" {
@@ -877,6 +962,17 @@ func (r *Run) execWriteTx(t *Task, idx int, tx *TxPlan) {
 				if _, ok := p.(injectedPanic); ok {
 					panicked = true
 					err = errInjected
+					return
+				}
+				if _, ok := p.(abortSig); !ok && libraryPanic() {
+					// the library itself panicked somewhere between the caller and the commit (not inside a store
+					// operation, those are caught per operation): the failure did not reach the caller as an error
+					if r.violate(Violation{Props: []string{"C07"}, Oracle: "tx", Sig: "panic-in-transaction:" + tx.Mode,
+						Detail: fmt.Sprintf("%s.%d (%s): the library panicked outside any store operation: %v", t.Name, idx, tx.Mode, p)}) {
+						panic(abortSig{})
+					}
+					panicked = true
+					err = fmt.Errorf("library panic: %v", p)
 					return
 				}
 				panic(p)
@@ -1289,7 +1385,7 @@ func (r *Run) propsForUnexpectedError(op Op) []string {
 			if len(op.Groups) > 0 {
 				set["C05"] = true
 			}
-		case StBadges, StNotes, StTickets, StMemos, StReviews, StFolders:
+		case StBadges, StNotes, StTickets, StMemos, StReviews, StFolders, StDesks:
 			set["C04"] = true
 		case StGroups:
 			set["C05"] = true
